@@ -325,6 +325,11 @@ func cmdRun(args []string) int {
 				if strings.HasPrefix(out, "fail:") || strings.HasPrefix(out, "panic:") {
 					hr.NativeReplays++
 					totalReplays++
+				} else if k := matchKnown(known, id, h.Name, v); k != nil {
+					// a schedule the native runtime cannot drive (engine-only preemption points), but it is the
+					// history class of a listed finding and reproduces in the engine's concrete replay
+					knownHits = append(knownHits, fmt.Sprintf("KNOWN-FINDING: property=%s %s [%s: %s @ %s] (engine replay only)", id, k.What, h.Name, v.Msg, v.Site))
+					continue
 				} else {
 					hr.Inconclusive = append(hr.Inconclusive, "UNCONFIRMED: counterexample did not reproduce natively ("+out+"): "+v.Msg+" @ "+v.Site)
 					continue
